@@ -8,7 +8,9 @@ import numpy as np
 from ..core import Op, jkey
 from ..rat import rat, frac
 from .. import evalgen as G
+from .. import history as H
 from .. import leanio
+from .. import tagpool as TP
 
 PROPERTY = "C09"
 LEAN_MODULE = "Proofs.C09"
@@ -31,45 +33,72 @@ THEOREMS = [_T + n for n in [
     "C09_terms_distinct_sound_event_detection", "C09_perm_clip_classification",
     "C09_perm_sound_event_classification", "C09_perm_sound_event_detection", "C09_top_k_monotone",
     "C09_multilabel_clip_score", "C09_multilabel_clip_score_single", "C09_balanced_accuracy_balanced_is_accuracy",
-    "C09_range_jaccard_samples", "C09_micro_average_precision", "C09_labels_of_table_perm"]]
+    "C09_range_jaccard_samples", "C09_micro_average_precision", "C09_labels_of_table_perm",
+    # follow-up "pools, histories": the arrays the metric models consume are C19's encodings of the real tags
+    "C09_tags_bridge", "C09_items_by_tag_equality", "C09_clip_classification_by_tags", "C09_clip_multilabel_by_tags",
+    "C09_clip_multilabel_closed_scores", "C09_sound_event_tasks_by_tags"]]
 LEVEL_TEXT = ("Lean theorems over the rational model of the seven metrics and the four task drivers hold for all inputs: "
               "for each driver every metric list of the result (evaluation, clip evaluation, match) has pairwise distinct "
               "terms and survives the label-keyed AOEF mapping; permuting the clip lists leaves every run-level metric and "
               "the overall score unchanged and permutes the clip evaluations; ranges 0 <= metric <= 1; average precision = "
               "step integral = mean precision at the positives; balanced accuracy = mean recall, = accuracy on balanced "
               "data; handling of the 'none' class; scores are means; the multilabel clip score is the product of the "
-              "clipped true-class probabilities. The (term, function) tables of the four task modules, the Jaccard "
+              "clipped true-class probabilities. The drivers take real tags (a term with all its fields, and a value): the "
+              "arrays every metric is computed over are proved to be the encodings of evaluation/encoding.py as property "
+              "C19 models them (C09_tags_bridge), and are characterised by tag equality only (C09_items_by_tag_equality: "
+              "two vocabulary tags that differ in any field are different classes, a near miss is no class). The (term, "
+              "function) tables of the four task modules, the Jaccard "
               "threshold and the AOEF keys of the metric terms are re-extracted on every run and checked by `decide`; the "
               "wrappers accuracy / balanced_accuracy / top_3_accuracy / jaccard / true_class_probability / "
               "classification_score are executed on symbolic score arrays and the extracted decision trees are proved "
               "equal to the model for all score values at small fixed shapes; all four task functions and every metric "
-              "function are run differentially against the model.")
+              "function are run differentially against the model, stand-alone and in histories (several evaluations in one "
+              "process over changing vocabularies, alternating tasks, reused and edited objects), every step judged by the model.")
 LEVEL_NOTE = ("Trusted: Lean kernel; scikit-learn 1.9.1 is not modelled, its conventions (top-k tie order, recall over present "
               "classes, AP step integral, 0 for classes without positives) are stated in the model and compared with sklearn's "
-              "output on every generated case. Unmodelled: binary64/float32 rounding (scores on dyadic grids or one non-dyadic "
+              "output on every generated case. Tags travel to the model as content read from the fields of objects built like "
+              "the ones handed to the code; class indices come from the Lean model of the encoder (C19), never from the "
+              "library's encoder; the geometry matcher's answer is a parameter of the detection driver (C07/C08). Unmodelled: "
+              "binary64/float32 rounding (scores on dyadic grids or one non-dyadic "
               "score per item so that float32 sums are exact; balanced accuracy and AP compared within 2^-40); exp/log of the "
-              "multilabel clip score (closed form compared within 2^-18). The symbolic ties hold in ordered-field semantics at "
+              "multilabel clip score (closed form over the model's encodings compared within 2^-18, also inside the task). The "
+              "symbolic ties hold in ordered-field semantics at "
               "the traced shapes (1-2 items, 1-4 classes); beyond them the model is tied to the code by the regenerated table "
-              "obligations and generator-bounded correspondence.")
+              "obligations and generator-bounded correspondence. Three known findings (one-tag multilabel vocabulary, detection "
+              "without labelled truth, clip-level tasks on clips that carry sound events) are modelled as errors.")
 TECHNIQUE = ("Lean 4 proof over model; metric-term tables, Jaccard threshold and AOEF keys regenerated by introspection and "
              "discharged by decide; symbolic traces of the metric wrappers on numpy object arrays proved equal to the model; "
-             "end-to-end differential correspondence of the four task functions; permutation and AOEF round-trip monitors")
-RULE = ("end-to-end task inputs (vocabularies of 1-6 tags, 1-8 clips, 0-4 sound events per clip, true tags incl. none and "
-        "out-of-vocabulary, dyadic / one-hot non-dyadic / arbitrary (multilabel) scores) and direct calls of the metric functions "
-        "on encoded arrays; non-trivial = the implementation returned a value; distinct = distinct (operation, input)")
+             "end-to-end differential correspondence of the four task functions on tags as content (class indices from the "
+             "C19 encoder model, adversarial tag pools), stand-alone and as histories; permutation and AOEF round-trip monitors")
+RULE = ("end-to-end task inputs (vocabularies of 1-6 tags, sizes 1/2/3/4 forced; tag pools: eight legacy tags / three taxa whose "
+        "classes differ only in the term / random adversarial pools sharing labels, names and values, near misses outside the "
+        "vocabulary, equal contents at several positions incl. repeated predicted tags; 1-8 clips, clips on one side only, 0-4 "
+        "sound events per clip, true tags incl. none and out-of-vocabulary, dyadic / one-hot non-dyadic / arbitrary (multilabel) "
+        "scores, exact ties best class = left-over probability and between classes, scores exactly 0 and 1; the same content "
+        "handed over with shared Tag objects, numpy / int scores, tuples, positional arguments); histories of 3-5 evaluations in "
+        "one process (vocabulary V1, a subset, the subset reordered, V1 again; two tasks alternating over the same live objects; "
+        "objects reused after their tags were assigned, edited in place or model_copy'd; results poisoned by the caller; earlier "
+        "results re-read at the end); direct calls of the metric functions on encoded arrays (float32 / float64, C / Fortran / "
+        "strided, truths as list / tuple / integer / object array); non-trivial = the implementation returned a value; distinct "
+        "= distinct (operation, input)")
 TRUSTED = ["scikit-learn 1.9.1 metrics (balanced_accuracy_score, accuracy_score, average_precision_score, jaccard_score, log_loss): "
            "outputs compared with the Lean definitions on every case",
-           "numpy argmax / argsort(kind='mergesort') / mean",
-           "harness: resolves a tag to the encoder's answer by position in the vocabulary (C19 covers the encoder)"]
-ASSUMPTIONS = ["float32/binary64 sums are exact on the generated scores (dyadic grids 2^-2..2^-4, or a single non-dyadic score per item)",
-               "vocabulary tags pairwise distinct; at most one predicted tag per vocabulary entry and item",
+           "numpy argmax / argsort(kind='mergesort') / mean; np.float32 for the value a score array stores",
+           "harness: reads the content of a tag from the fields of a freshly built Tag (tagpool.content); the class index is "
+           "computed in Lean by C19's model of SimpleEncoder (theorem C09_tags_bridge)",
+           "the geometry matcher (match_geometries): its answer per evaluated clip is a parameter of the detection driver "
+           "(properties C07 / C08 cover it)"]
+ASSUMPTIONS = ["float32/binary64 sums are exact on the generated scores (dyadic grids 2^-1..2^-4, or a single non-dyadic score per item)",
+               "vocabulary tags pairwise distinct by content; a repeated predicted tag is encoded as C19 pins it (the last score wins)",
                "sound_event_classification: predictions and annotations of a clip refer to the same sound events one-to-one"]
 NOT_COMPARED = ["order of the clip evaluations within the result (compared by clip id; C08 pins the order for detection)",
-                "multilabel clip score exp(-log_loss): inside a task it is compared for equality with a recomputation by the "
-                "same library function; that function itself is compared with the model's closed form (product of the clipped "
-                "probabilities of the true classes) only within 2^-18 (float32 logarithms)",
+                "multilabel clip score exp(-log_loss): compared with the model's closed form (product of the clipped probabilities "
+                "of the true classes, over the model's own encodings) within 2^-18 only (float32 logarithms); the evaluation score "
+                "of that task is compared exactly-rounded (2^-40) with the mean of the clip scores the implementation reported",
                 "affinity of sound_event_classification matches (constant 1 in code and model; not part of the statement)",
                 "order of metrics within a list, order of matches within a clip",
+                "SoundEventPrediction.score, clip-level tags in the sound-event tasks (not generated for the stand-alone stream; "
+                "clip-level tags are present and ignored in the histories)",
                 "error messages", "uuids / created_on of the result"]
 
 SINGLE = G.SINGLE_LABEL
@@ -88,10 +117,45 @@ def _strip(ev):
     return ev
 
 
+def _tagreq(inp):
+    """the tag side of every model request: the pool as tag *contents* (read from the fields of objects built like the
+    ones handed to the code, `tagpool.content`) and the vocabulary as pool positions.  The class index of a tag is
+    computed by the Lean model of the encoder (C19's `Encoding.encode`, theorem C09_tags_bridge), never by the
+    harness and never by the library's encoder."""
+    return {"pool": TP.model_pool(inp), "vocab": list(inp["vocab"])}
+
+
+def to_model(inp):
+    """abstract input -> request of the Lean op `task_tags`: tags by pool position, every predicted score as the
+    float32 value `prediction_encoding` stores, for detection the matcher's answer per evaluated clip (the matcher
+    is C07/C08's, a parameter here).  The multilabel clip scores are not part of the request: the model computes
+    them in closed form from its own encodings."""
+    task = inp["task"]
+    ann_by_clip = {}
+    for c in inp["annotations"]:
+        ann_by_clip[c["clip"]] = c       # a dictionary: the last one wins
+    preds = []
+    for c in inp["predictions"]:
+        pc = {"clip": c["clip"],
+              "tags": [[t, G.f32(s)] for t, s in c.get("tags", [])],
+              "events": [{"id": e["id"], "geom": e["geom"] is not None,
+                          "tags": [[t, G.f32(s)] for t, s in e["tags"]]} for e in c.get("events", [])]}
+        a = ann_by_clip.get(c["clip"])
+        if a is not None and task == "sound_event_detection":
+            pc["matcher"] = G.matcher_answer(c.get("events", []), a.get("events", []))
+        preds.append(pc)
+    anns = [{"clip": c["clip"], "tags": list(c.get("tags", [])),
+             "events": [{"id": e["id"], "geom": e["geom"] is not None, "tags": list(e["tags"])}
+                        for e in c.get("events", [])]} for c in inp["annotations"]]
+    return {**_tagreq(inp), "task": task, "predictions": preds, "annotations": anns}
+
+
 def _score_modes(inp):
     t = inp["task"]
     if t == "clip_multilabel_classification":
-        return "tolerance", "exact"        # clip score: same library call -> bit equal; overall: mean of arbitrary doubles
+        # exp(-log_loss): the model's closed form (product of the clipped probabilities of the true classes over the
+        # model's own encodings) against float32 logarithms
+        return "loose", "loose"
     if t == "clip_classification":
         return "round-once", "exact"       # clip score is the true-class probability itself
     # clip score: one division of an exact sum; overall: the mean of those already rounded clip scores
@@ -130,16 +194,31 @@ def in_scope(inp):
 
 
 def all_unlabelled(inp):
-    """detection: no evaluated annotation has a tag of the vocabulary"""
+    """detection: no evaluated annotation has a tag of the vocabulary (tags compared by content)"""
+    pool = TP.descriptors(inp)
+    classes = {TP.ckey(pool[t]) for t in inp["vocab"]}
     annotated = {c["clip"]: c for c in inp["annotations"]}
     for c in inp["predictions"]:
         a = annotated.get(c["clip"])
         if a is None:
             continue
         for e in a.get("events", []):
-            if any(t in inp["vocab"] for t in e["tags"]):
+            if any(TP.ckey(pool[t]) in classes for t in e["tags"]):
                 return False
     return True
+
+
+def carries_events(inp):
+    """a clip-level task on an evaluated clip that carries sound events (known finding C09-K3: the task builds a
+    `ClipEvaluation` without matches and its validator rejects it)"""
+    if inp["task"] not in ("clip_classification", "clip_multilabel_classification"):
+        return False
+    annotated = {c["clip"]: c for c in inp["annotations"]}
+    for c in inp["predictions"]:
+        a = annotated.get(c["clip"])
+        if a is not None and (c.get("events") or a.get("events")):
+            return True
+    return False
 
 
 def _in_unit(v, label):
@@ -151,17 +230,17 @@ def _in_unit(v, label):
     return 0 <= q <= 1
 
 
-def _holds_task(ctx, inp, io):
+def _holds_task(ctx, inp, io, light=False):
     """the property evaluated on the implementation's own result"""
     try:
-        return _holds_task_inner(ctx, inp, io)
+        return _holds_task_inner(ctx, inp, io, light)
     except leanio.InfraError:
         raise
     except Exception as e:  # noqa: BLE001 - the code changed shape under the monitor: that is a finding about the code
         return f"property monitor could not be evaluated on the result: {type(e).__name__}: {str(e)[:200]}"
 
 
-def _holds_task_inner(ctx, inp, io):
+def _holds_task_inner(ctx, inp, io, light=False):
     if not in_scope(inp):
         return None
     if "raise" in io:
@@ -178,26 +257,40 @@ def _holds_task_inner(ctx, inp, io):
             continue
         if v == "nan" or not _in_unit(v, label):
             return f"{label} is outside [0, 1]: {v} ({where})"
-    # 3. the result does not depend on the order of the clips
+    # 2b. scores aggregate as means: the evaluation score of the multilabel task against the model's mean of the clip
+    #     scores the implementation itself reported (those are compared with the closed form only within 2^-18)
+    if inp["task"] == "clip_multilabel_classification":
+        m = ctx.model("overall_score", {"scores": [c["score"] for c in ev["clips"]]})
+        if any(c["score"] == "nan" for c in ev["clips"]) or not G.num_eq(ev["score"], m, "tolerance"):
+            return f"evaluation score is not the mean of the clip scores: {G._fl(ev['score'])} instead of {G._fl(m)}"
+    if light:
+        return None
+    # 3. the result does not depend on the order of the clips (re-run on shuffled clip lists; with a single clip on
+    #    each side there is nothing to permute)
     n = ctx.tallies.get("holds:calls", 0)
     ctx.tally("holds:calls")
     rng = ctx.rng
-    perm = copy.deepcopy(inp)
-    rng.shuffle(perm["predictions"])
-    rng.shuffle(perm["annotations"])
-    try:
-        ev_obj = G.run_task(perm)
-    except Exception as e:  # noqa: BLE001
-        return f"the task raised {type(e).__name__} after permuting the clips"
-    ev2 = G.canon_evaluation(ev_obj)
-    d = G.evaluation_diff(ev, ev2_as_model(ev2), score_mode="tolerance", clip_score_mode="tolerance", clip_order=False)
-    if d:
-        return "result depends on the order of the clips: " + d
-    ctx.tally("holds:permutation")
+    ev_obj, ev2 = None, ev
+    if len(inp["predictions"]) > 1 or len(inp["annotations"]) > 1:
+        perm = copy.deepcopy(inp)
+        rng.shuffle(perm["predictions"])
+        rng.shuffle(perm["annotations"])
+        try:
+            ev_obj = G.run_task(perm)
+        except Exception as e:  # noqa: BLE001
+            return f"the task raised {type(e).__name__} after permuting the clips"
+        ev2 = G.canon_evaluation(ev_obj)
+        d = G.evaluation_diff(ev, ev2, score_mode="tolerance", clip_score_mode="tolerance", clip_order=False)
+        if d:
+            return "result depends on the order of the clips: " + d
+        ctx.tally("holds:permutation")
     # 4. it survives an AOEF save/load with every metric intact (every third case)
     if n % 3 == 0:
+        if ev_obj is None:
+            ev_obj = G.run_task(inp)
+            ev2 = G.canon_evaluation(ev_obj)
         loaded = G.canon_evaluation(G.aoef_roundtrip(ev_obj, leanio.run_dir()))
-        d = G.evaluation_diff(loaded, ev2_as_model(ev2), score_mode="exact", clip_score_mode="exact", clip_order=False)
+        d = G.evaluation_diff(loaded, ev2, score_mode="exact", clip_score_mode="exact", clip_order=False)
         if d:
             return "AOEF save/load does not keep every metric: " + d
         # the loaded lists are what the model of the label-keyed mapping says
@@ -219,40 +312,73 @@ def _nontrivial(inp, out):
     return "val" in out and any(c["metrics"] or c["matches"] for c in out["val"]["clips"])
 
 
-OPS = {t: Op(t, _impl_task, to_model=G.to_model, compare=_compare_task, holds=_holds_task,
-             nontrivial=_nontrivial, mode="round-once", model_op="task") for t in G.TASKS}
+OPS = {t: Op(t, _impl_task, to_model=to_model, compare=_compare_task, holds=_holds_task,
+             nontrivial=_nontrivial, mode="round-once", model_op="task_tags") for t in G.TASKS}
 
 
 # ---------------------------------------------------------------- direct metric functions
-def _arr_items(inp):
-    C = inp["C"]
-    y = [it["y"] for it in inp["items"]]
-    rows = np.array([[float(frac(s)) for s in it["row"]] for it in inp["items"]], dtype=np.float32).reshape(len(y), C)
-    return y, rows
+def _scores(rows, how, shape=None):
+    """the score array as the caller may legitimately hand it over: float32 (what the tasks pass) or float64,
+    C order / Fortran order / a strided view of a wider array"""
+    how = how or {}
+    dt = np.float64 if how.get("dt") == "f64" else np.float32
+    a = np.array([[float(frac(s)) for s in r] for r in rows], dtype=dt)
+    if shape is not None:
+        a = a.reshape(shape)
+    order = how.get("order")
+    if order == "F" and a.ndim == 2:
+        a = np.asfortranarray(a)
+    elif order == "view":
+        w = np.zeros(a.shape[:-1] + (2 * a.shape[-1],), dtype=dt)
+        w[..., ::2] = a
+        a = w[..., ::2]
+    return a
+
+
+def _truths(y, how):
+    """the true classes of single-label items as list / tuple / integer array (all labelled) / object array"""
+    yt = (how or {}).get("yt", "list")
+    if yt == "tuple":
+        return tuple(y)
+    if yt == "array" and all(v is not None for v in y):
+        return np.array(y, dtype=np.int64)
+    if yt == "object":
+        a = np.empty(len(y), dtype=object)
+        a[:] = y
+        return a
+    return list(y)
+
+
+def _indicator(rows, how):
+    """multilabel truths: int32 (what `multilabel_encoding` returns), int64 or bool"""
+    yt = (how or {}).get("yt", "list")
+    return np.array(rows, dtype={"array": np.int64, "object": bool}.get(yt, np.int32))
 
 
 def _impl_metric(inp):
     from soundevent.evaluation import metrics as M
     fn = inp["fn"]
+    how = inp.get("how")
     with warnings.catch_warnings():
         warnings.simplefilter("ignore")
         if fn in ("accuracy", "balanced_accuracy", "top_3_accuracy", "mean_average_precision"):
-            y, rows = _arr_items(inp)
+            y = _truths([it["y"] for it in inp["items"]], how)
+            rows = _scores([it["row"] for it in inp["items"]], how, (len(inp["items"]), inp["C"]))
             return {"val": rat(float(getattr(M, fn)(y, rows)))}
         if fn in ("true_class_probability", "classification_score"):
             it = inp["item"]
-            return {"val": rat(float(getattr(M, fn)(it["y"], np.array([float(frac(s)) for s in it["row"]], dtype=np.float32))))}
+            return {"val": rat(float(getattr(M, fn)(it["y"], _scores([it["row"]], how)[0])))}
         if fn in ("jaccard_2d", "average_precision_2d", "multilabel_example_score_2d"):
-            y = np.array([it["truth"] for it in inp["items"]], dtype=np.int32)
-            rows = np.array([[float(frac(s)) for s in it["row"]] for it in inp["items"]], dtype=np.float32)
+            y = _indicator([it["truth"] for it in inp["items"]], how)
+            rows = _scores([it["row"] for it in inp["items"]], how)
             return {"val": rat(float(getattr(M, fn[:-3])(y, rows)))}
         if fn == "mean_average_precision_2d":
-            y = np.array([it["truth"] for it in inp["items"]], dtype=np.int32)
-            rows = np.array([[float(frac(s)) for s in it["row"]] for it in inp["items"]], dtype=np.float32)
+            y = _indicator([it["truth"] for it in inp["items"]], how)
+            rows = _scores([it["row"] for it in inp["items"]], how)
             return {"val": rat(float(M.mean_average_precision(y, rows)))}
         it = inp["item"]
-        y = np.array(it["truth"], dtype=np.int32)
-        row = np.array([float(frac(s)) for s in it["row"]], dtype=np.float32)
+        y = _indicator(it["truth"], how)
+        row = _scores([it["row"]], how)[0]
         return {"val": rat(float(getattr(M, fn)(y, row)))}
 
 
@@ -545,6 +671,7 @@ def _symbolic_ties(ctx):
 
 # ---------------------------------------------------------------- generators
 NEAR_HALF = [0.5 + 2.0 ** -20, 0.5 + 2.0 ** -10, 0.505, 0.51, 0.5 - 2.0 ** -20, 0.495, 0.52]
+POSITIONS = list(range(G.POOL))      # every pool (legacy, three taxa, adversarial) has eight positions
 
 
 def _ml_scores(rng, pool_tags):
@@ -556,27 +683,111 @@ def _ml_scores(rng, pool_tags):
     return out
 
 
-def _gen_clip_task(rng, task, n_clips=None, vocab=None):
-    vocab = vocab if vocab is not None else G.gen_vocab(rng, 1, 6)
-    pool = list(range(G.POOL))
-    # tags drawn mostly from the vocabulary, sometimes from outside
-    def draw_pool():
-        return vocab if rng.random() < 0.7 else pool
+def _tie_row(rng, n):
+    """n dyadic scores, sum <= 1, with an exact tie where an implementation has to decide: the best class equal to the
+    left-over 'none' probability 1 - sum, two classes sharing the best score, or both at once"""
+    kind = rng.choice(["none", "none", "classes", "both"])
+    for _ in range(300):
+        U = 1 << rng.choice([1, 2, 3, 4])
+        parts = [rng.randint(0, U) for _ in range(n)]
+        tot = sum(parts)
+        if tot > U or max(parts) == 0:
+            continue
+        best = max(parts)
+        t_none = best == U - tot
+        t_cls = parts.count(best) >= 2
+        if (kind == "none" and t_none) or (kind == "classes" and t_cls) or (kind == "both" and t_none and t_cls):
+            return [rat(Fraction(p, U)) for p in parts]
+    return [rat(Fraction(1, 2))] + ["0"] * (n - 1)
+
+
+def _sl_scores(rng, pool_tags):
+    """predicted tags of one single-label item (sum <= 1): evalgen's stream plus the boundaries - exact ties with the
+    'none' column / between classes, a single score of exactly 1, explicit zeros only"""
+    r = rng.random()
+    if r < 0.16:
+        n = rng.randint(1, min(len(pool_tags), 4))
+        return [[t, s] for t, s in zip(rng.sample(pool_tags, n), _tie_row(rng, n))]
+    if r < 0.20:
+        return [[rng.choice(pool_tags), "1"]]
+    if r < 0.23:
+        return [[t, "0"] for t in rng.sample(pool_tags, rng.randint(1, min(len(pool_tags), 3)))]
+    return G.single_label_scores(rng, pool_tags)
+
+
+def _pool_and_vocab(rng, lo=1, hi=6, size=None):
+    """(tag pool | None, vocabulary as pool positions): the legacy pool (eight different values), the three-taxa pool
+    (classes that differ only in the term, near misses outside) or a random adversarial pool; the vocabulary is
+    duplicate-free by content"""
+    for _ in range(40):
+        n = size or rng.randint(lo, hi)
+        r = rng.random()
+        if r < 0.2:
+            return None, rng.sample(POSITIONS, n)
+        if r < 0.45:
+            pool = [dict(d) for d in TP.TAXA]
+            core = [0, 2, 1]                  # gbif Turdus / ebird Turdus (same label, same value) / gbif Parus
+            vocab = core[:n] + rng.sample([3, 4, 5, 7], max(0, min(n - 3, 4)))
+            if n >= 2 and rng.random() < 0.3:
+                vocab[rng.randrange(len(vocab))] = rng.choice([3, 4, 5, 7])
+            rng.shuffle(vocab)
+        else:
+            pool = TP.gen_pool(rng)
+            vocab = rng.sample(POSITIONS, n)
+        vocab = TP.dedupe_ids(pool, vocab)
+        if size is None or len(vocab) == size:
+            return pool, vocab
+    return None, rng.sample(POSITIONS, size or rng.randint(lo, hi))
+
+
+_OPTS = [{"tags": "shared"}, {"score": "np64"}, {"score": "np32"}, {"score": "int"}, {"seq": "tuple"},
+         {"call": "positional"}]
+
+
+def _gen_opts(rng):
+    """how the same content is handed to the task function (see evalgen.build): most cases the plain way"""
+    if rng.random() < 0.65:
+        return None
+    o = {}
+    for d in rng.sample(_OPTS, rng.choice([1, 1, 2, 3])):
+        o.update(d)
+    return o
+
+
+def _finish(rng, inp, pool):
+    if pool is not None:
+        inp["tagpool"] = pool
+    o = _gen_opts(rng)
+    if o:
+        inp["opts"] = o
+    return inp
+
+
+def _draw(rng, vocab):
+    return vocab if rng.random() < 0.7 else POSITIONS
+
+
+def _gen_clip_task(rng, task, n_clips=None, size=None):
+    pool, vocab = _pool_and_vocab(rng, size=size)
     nb = n_clips if n_clips is not None else rng.choice([1, 1, 2, 3, 4, 6, 8])
     p_ids, a_ids = G.clip_ids(rng, nb, rng.choice([0, 0, 1]), rng.choice([0, 0, 1]))
     ml = task == "clip_multilabel_classification"
-    preds = [{"clip": c, "tags": (_ml_scores(rng, draw_pool()) if ml else G.single_label_scores(rng, draw_pool()))}
+    preds = [{"clip": c, "tags": (_ml_scores(rng, _draw(rng, vocab)) if ml else _sl_scores(rng, _draw(rng, vocab)))}
              for c in p_ids]
-    anns = [{"clip": c, "tags": G.true_tags(rng, draw_pool(), multilabel=ml)} for c in a_ids]
-    return {"task": task, "vocab": vocab, "predictions": preds, "annotations": anns}
+    anns = [{"clip": c, "tags": G.true_tags(rng, _draw(rng, vocab), multilabel=ml)} for c in a_ids]
+    if rng.random() < 0.03:
+        # a clip that also carries a sound event (annotated clips of real datasets do): known finding C09-K3
+        k = rng.randrange(len(preds) + len(anns))
+        c = (preds + anns)[k]
+        c["events"] = [{"id": 1, "geom": list(_BOX), "tags": ([[vocab[0], "1/2"]] if k < len(preds) else [vocab[0]])}]
+    return _finish(rng, {"task": task, "vocab": vocab, "predictions": preds, "annotations": anns}, pool)
 
 
 _BOX = ["1", "1000", "2", "2000"]
 
 
-def _gen_sec(rng, n_clips=None, vocab=None):
-    vocab = vocab if vocab is not None else G.gen_vocab(rng, 1, 6)
-    pool = list(range(G.POOL))
+def _gen_sec(rng, n_clips=None, size=None):
+    pool, vocab = _pool_and_vocab(rng, size=size)
     nb = n_clips if n_clips is not None else rng.choice([1, 1, 2, 3, 4])
     p_ids, a_ids = G.clip_ids(rng, nb, rng.choice([0, 0, 1]), rng.choice([0, 0, 1]))
     events = {}
@@ -588,18 +799,16 @@ def _gen_sec(rng, n_clips=None, vocab=None):
     if not any(events[c] for c in set(p_ids) & set(a_ids)):
         c = next(iter(set(p_ids) & set(a_ids)))
         events[c] = [nid]
-    def dp():
-        return vocab if rng.random() < 0.7 else pool
     preds, anns = [], []
     for c in p_ids:
         ids = list(events[c])
         rng.shuffle(ids)
         preds.append({"clip": c, "events": [{"id": i, "geom": _BOX if rng.random() < 0.8 else None,
-                                              "tags": G.single_label_scores(rng, dp())} for i in ids]})
+                                              "tags": _sl_scores(rng, _draw(rng, vocab))} for i in ids]})
     for c in a_ids:
         ids = list(events[c])
         rng.shuffle(ids)
-        anns.append({"clip": c, "events": [{"id": i, "geom": None, "tags": G.true_tags(rng, dp())} for i in ids]})
+        anns.append({"clip": c, "events": [{"id": i, "geom": None, "tags": G.true_tags(rng, _draw(rng, vocab))} for i in ids]})
     # now and then a predicted sound event that is not annotated in its clip, or an annotated one that is not
     # predicted: the code skips both (outside the one-to-one reading of the quantifier, inside the model)
     if rng.random() < 0.2:
@@ -608,7 +817,7 @@ def _gen_sec(rng, n_clips=None, vocab=None):
         nid += 1
         c["events"].insert(rng.randrange(len(c["events"]) + 1),
                            {"id": 1000 + nid, "geom": _BOX,
-                            "tags": G.single_label_scores(rng, dp()) if side is preds else G.true_tags(rng, dp())})
+                            "tags": _sl_scores(rng, _draw(rng, vocab)) if side is preds else G.true_tags(rng, _draw(rng, vocab))})
     # a sound event is one object: same geometry on both sides
     geom = {}
     for c in preds:
@@ -617,7 +826,18 @@ def _gen_sec(rng, n_clips=None, vocab=None):
     for c in anns:
         for e in c["events"]:
             e["geom"] = geom.get(e["id"], _BOX)
-    return {"task": "sound_event_classification", "vocab": vocab, "predictions": preds, "annotations": anns}
+    return _finish(rng, {"task": "sound_event_classification", "vocab": vocab, "predictions": preds, "annotations": anns},
+                   pool)
+
+
+def _gen_detection(rng, n_clips=None, size=None):
+    pool, vocab = _pool_and_vocab(rng, size=size)
+    inp = G.gen_detection(rng, n_clips=n_clips, vocab=vocab)
+    for c in inp["predictions"]:          # the boundary rows of _sl_scores for some predicted sound events
+        for e in c["events"]:
+            if rng.random() < 0.2:
+                e["tags"] = _sl_scores(rng, _draw(rng, vocab))
+    return _finish(rng, inp, pool)
 
 
 def gen_task(rng, task, **kw):
@@ -625,12 +845,61 @@ def gen_task(rng, task, **kw):
         if task == "sound_event_classification":
             inp = _gen_sec(rng, **kw)
         elif task == "sound_event_detection":
-            inp = G.gen_detection(rng, **kw)
+            inp = _gen_detection(rng, **kw)
         else:
             inp = _gen_clip_task(rng, task, **kw)
         if in_scope(inp):
             return inp
     return inp
+
+
+def gen_rich(rng, events, size=None, n_clips=None):
+    """clips that two tasks can evaluate.  events=False: clip-level tags only (single-label scores, sum <= 1): both
+    clip-level tasks.  events=True: sound events that predictions and annotations share one-to-one, with geometries,
+    and clip-level tags on top (the sound-event tasks must not look at them): both sound-event tasks.  (All four tasks
+    on the same objects is not possible: the clip-level tasks reject clips with sound events, C09-K3.)"""
+    pool, vocab = _pool_and_vocab(rng, lo=2, hi=5, size=size)
+    nb = n_clips if n_clips is not None else rng.choice([1, 2, 2, 3])
+    p_ids, a_ids = G.clip_ids(rng, nb, rng.choice([0, 0, 1]), rng.choice([0, 0, 1]))
+    nid = [0]
+    by = {}
+    for c in set(p_ids) | set(a_ids):
+        evs = []
+        for _ in range(rng.choice([0, 1, 1, 2, 3]) if events else 0):
+            nid[0] += 1
+            evs.append((nid[0], G.gen_boxes(rng) if rng.random() < 0.85 else None))
+        by[c] = evs
+    if events and not any(by[c] for c in set(p_ids) & set(a_ids)):
+        nid[0] += 1
+        by[next(iter(set(p_ids) & set(a_ids)))] = [(nid[0], list(_BOX))]
+    preds, anns = [], []
+    for c in p_ids:
+        evs = list(by[c])
+        rng.shuffle(evs)
+        preds.append({"clip": c, "tags": _sl_scores(rng, _draw(rng, vocab)),
+                      "events": [{"id": i, "geom": g, "tags": _sl_scores(rng, _draw(rng, vocab))} for i, g in evs]})
+    for c in a_ids:
+        evs = list(by[c])
+        rng.shuffle(evs)
+        anns.append({"clip": c, "tags": G.true_tags(rng, _draw(rng, vocab), multilabel=rng.random() < 0.4),
+                     "events": [{"id": i, "geom": g, "tags": G.true_tags(rng, _draw(rng, vocab))} for i, g in evs]})
+    inp = {"task": "sound_event_classification" if events else "clip_classification", "vocab": vocab,
+           "predictions": preds, "annotations": anns}
+    if pool is not None:
+        inp["tagpool"] = pool
+    return inp
+
+
+def _known(inp):
+    """the recorded known findings (a history must not walk into them: its steps are judged as one case)"""
+    if inp["task"] == "clip_multilabel_classification" and len(inp["vocab"]) <= 1:
+        return True
+    if carries_events(inp):
+        return True
+    return inp["task"] == "sound_event_detection" and all_unlabelled(inp)
+
+
+_YT = ["list", "list", "tuple", "array", "object"]
 
 
 def _gen_metric(rng):
@@ -639,30 +908,318 @@ def _gen_metric(rng):
                      "average_precision", "jaccard", "multilabel_example_score"] * 3 +
                     ["jaccard_2d", "average_precision_2d", "multilabel_example_score_2d"])
     C = rng.randint(2, 6) if fn in ("jaccard", "mean_average_precision_2d", "multilabel_example_score", "jaccard_2d",
-                                    "average_precision_2d", "multilabel_example_score_2d") else rng.randint(1, 6)
+                                    "average_precision_2d", "multilabel_example_score_2d") else rng.choice([1, 2, 3, 3, 4, 4, 5, 6])
+    # sizes where an implementation could switch strategy: more than 16 columns (numpy's unstable sorts are insertion
+    # sorts - stable - below that), a thousand items
+    wide = fn in ("accuracy", "balanced_accuracy", "top_3_accuracy", "mean_average_precision") and rng.random() < 0.03
+    if wide:
+        C = rng.randint(17, 40)
+    many = fn in ("accuracy", "balanced_accuracy", "top_3_accuracy", "mean_average_precision") and not wide and rng.random() < 0.004
+    # how the arrays are handed over: float32 (what the tasks pass) or float64 scores (dyadic rows then, so that the
+    # sums are exact in either width), C / Fortran order / a strided view; the truths as list, tuple, integer array
+    # (where every item is labelled) or object array
+    f64 = rng.random() < 0.25
+    how = {"dt": "f64" if f64 else "f32", "order": rng.choice(["C", "C", "F", "view"]), "yt": rng.choice(_YT)}
 
     def row():
-        sc = dict((t, s) for t, s in G.single_label_scores(rng, list(range(C))))
+        if f64:
+            k = rng.randint(0, C)
+            sc = dict(G.dyadic_scores(rng, rng.sample(range(C), k))) if k else {}
+            return [sc.get(i, "0") for i in range(C)]
+        sc = dict((t, s) for t, s in _sl_scores(rng, list(range(C))))
         return [G.f32(sc.get(i, "0")) for i in range(C)]
 
     def mlrow():
         sc = dict((t, s) for t, s in _ml_scores(rng, list(range(C))))
-        return [G.f32(sc.get(i, "0")) for i in range(C)]
+        return [(rat(float(frac(sc[i]))) if f64 else G.f32(sc[i])) if i in sc else "0" for i in range(C)]
     if fn in ("accuracy", "balanced_accuracy", "top_3_accuracy", "mean_average_precision"):
-        n = rng.randint(1, 12)
+        n = rng.randint(1030, 1300) if many else rng.randint(1, 12)
         items = [{"y": rng.choice([None] + list(range(C)) * 2), "row": row()} for _ in range(n)]
-        return {"fn": fn, "C": C, "items": items}
+        return {"fn": fn, "C": C, "items": items, "how": how}
     if fn in ("true_class_probability", "classification_score"):
-        return {"fn": fn, "C": C, "item": {"y": rng.choice([None] + list(range(C))), "row": row()}}
+        return {"fn": fn, "C": C, "item": {"y": rng.choice([None] + list(range(C))), "row": row()}, "how": how}
     if fn in ("jaccard_2d", "average_precision_2d"):
         n = rng.randint(1, 5)
-        return {"fn": fn, "C": C, "items": [{"truth": [rng.randint(0, 1) for _ in range(C)], "row": mlrow()} for _ in range(n)]}
+        return {"fn": fn, "C": C, "how": how,
+                "items": [{"truth": [rng.randint(0, 1) for _ in range(C)], "row": mlrow()} for _ in range(n)]}
     if fn == "multilabel_example_score_2d":      # a single example given as a 1 x C matrix
         return {"fn": fn, "C": C, "items": [{"truth": [rng.randint(0, 1) for _ in range(C)], "row": mlrow()}]}
     if fn == "mean_average_precision_2d":
         n = rng.randint(1, 8)
-        return {"fn": fn, "C": C, "items": [{"truth": [rng.randint(0, 1) for _ in range(C)], "row": mlrow()} for _ in range(n)]}
-    return {"fn": fn, "C": C, "item": {"truth": [rng.randint(0, 1) for _ in range(C)], "row": mlrow()}}
+        return {"fn": fn, "C": C, "how": how,
+                "items": [{"truth": [rng.randint(0, 1) for _ in range(C)], "row": mlrow()} for _ in range(n)]}
+    if fn == "multilabel_example_score":
+        return {"fn": fn, "C": C, "item": {"truth": [rng.randint(0, 1) for _ in range(C)], "row": mlrow()}}
+    return {"fn": fn, "C": C, "item": {"truth": [rng.randint(0, 1) for _ in range(C)], "row": mlrow()}, "how": how}
+
+
+# ---------------------------------------------------------------- histories (HISTORIES.md section 1)
+def _light_holds(ctx, inp, io):
+    return _holds_task(ctx, inp, io, light=True)
+
+
+# one step of a history: any of the four tasks (the input names it), judged by the same model op and comparison as a
+# stand-alone case; the permutation / AOEF monitors are left to the stand-alone stream
+STEP = Op("task_step", _impl_task, to_model=to_model, compare=_compare_task, holds=_light_holds,
+          nontrivial=_nontrivial, mode="round-once", model_op="task_tags")
+
+
+def _tag_makers(inp):
+    if inp.get("tagpool") is not None:
+        descs = inp["tagpool"]
+        return lambda t: TP.fresh(descs[t])
+    return G.tag
+
+
+def _skeleton(inp):
+    """what a reuse step must share with the step before: the clips, and per clip the sound events (id, geometry)"""
+    return [[(c["clip"], [(e["id"], G.gkey(e["geom"])) for e in c.get("events", [])]) for c in inp[side]]
+            for side in ("predictions", "annotations")]
+
+
+def _h_build(inp):
+    preds, anns, tags = G.build(inp)
+    return {"inp": copy.deepcopy(inp), "preds": preds, "anns": anns, "tags": tags}
+
+
+def _h_call(args):
+    return G.call_task(args["inp"]["task"], args["preds"], args["anns"], args["tags"], args["inp"].get("opts"))
+
+
+def _h_canon(inp, args, res):
+    return {"val": G.canon_evaluation(res)}
+
+
+def _tag_snap(t):
+    return jkey(TP.read_back(t))
+
+
+def _h_snapshot(args):
+    def clip(c, pred):
+        if pred:
+            tg = lambda ts: [[_tag_snap(p.tag), repr(p.score)] for p in ts]  # noqa: E731
+        else:
+            tg = lambda ts: [_tag_snap(t) for t in ts]  # noqa: E731
+        return [str(c.clip.uuid), tg(c.tags), [[str(e.sound_event.uuid), repr(e.sound_event.geometry), tg(e.tags)]
+                                               for e in c.sound_events]]
+    return {"p": [clip(c, True) for c in args["preds"]], "a": [clip(c, False) for c in args["anns"]],
+            "v": [_tag_snap(t) for t in args["tags"]]}
+
+
+def _h_modify(args, inp, how):
+    """the live ClipPrediction / ClipAnnotation objects of the step before, changed to carry `inp`:
+    how = "same": the very same objects (their content is `inp`'s already: only the vocabulary / the task differ);
+    "assign": new tag lists assigned to the attributes; "inplace": the tag lists they hold are emptied and refilled;
+    "copy" / "deepcopy": `model_copy(update=...)` shallow / deep of every clip and sound event object.
+    The vocabulary list: rebuilt, for "inplace" the same list object refilled."""
+    from soundevent import data
+    old = args["inp"]
+    if _skeleton(old) != _skeleton(inp):
+        return None
+    mk = _tag_makers(inp)
+    same_tags = all(old[s] == inp[s] for s in ("predictions", "annotations")) and old.get("tagpool") == inp.get("tagpool")
+    if how == "same" and not same_tags:
+        how = "assign"
+
+    def ptags(ts):
+        return [data.PredictedTag(tag=mk(t), score=float(frac(s))) for t, s in ts]
+
+    def ttags(ts):
+        return [mk(t) for t in ts]
+    new = {"inp": copy.deepcopy(inp), "preds": list(args["preds"]), "anns": list(args["anns"]), "tags": args["tags"]}
+    if how != "same":
+        for side, key, conv in (("predictions", "preds", ptags), ("annotations", "anns", ttags)):
+            for i, c in enumerate(inp[side]):
+                obj = new[key][i]
+                evs = c.get("events", [])
+                if how == "assign":
+                    obj.tags = conv(c.get("tags", []))
+                    for e, eo in zip(evs, obj.sound_events):
+                        eo.tags = conv(e["tags"])
+                elif how == "inplace":
+                    obj.tags[:] = conv(c.get("tags", []))
+                    for e, eo in zip(evs, obj.sound_events):
+                        eo.tags[:] = conv(e["tags"])
+                else:
+                    deep = how == "deepcopy"
+                    ses = [eo.model_copy(update={"tags": conv(e["tags"])}, deep=deep) for e, eo in zip(evs, obj.sound_events)]
+                    new[key][i] = obj.model_copy(update={"tags": conv(c.get("tags", [])), "sound_events": ses}, deep=deep)
+    vt = ttags(inp["vocab"])
+    if how == "inplace":
+        new["tags"][:] = vt
+    else:
+        new["tags"] = vt
+    return new
+
+
+def _h_poison(res):
+    """the caller edits what it got back: metric lists emptied / doubled in place"""
+    done = False
+    if res.metrics:
+        res.metrics.append(res.metrics[0])
+        done = True
+    for ce in res.clip_evaluations:
+        if ce.metrics:
+            ce.metrics.clear()
+            done = True
+        for m in ce.matches:
+            if m.metrics:
+                m.metrics.clear()
+                done = True
+    return done
+
+
+OPS["task_history"] = H.history_op("task_history", STEP, build=_h_build, call=_h_call, canon=_h_canon,
+                                   snapshot=_h_snapshot, modify=_h_modify, poison=_h_poison)
+REUSE = ["assign", "inplace", "copy", "deepcopy"]
+
+
+def _with(inp, **kw):
+    out = copy.deepcopy(inp)
+    out.update(kw)
+    return out
+
+
+def _siblings(inp, t):
+    """pool positions whose tag is another tag than position t's but shares its value and the label or the name of its term"""
+    pool = [TP.content(d) for d in TP.descriptors(inp)]
+    a = pool[t]
+    return [i for i, b in enumerate(pool) if jkey(b) != jkey(a) and b["value"] == a["value"]
+            and (b["term"]["label"] == a["term"]["label"] or b["term"]["name"] == a["term"]["name"])]
+
+
+def _vocab_variants(rng, x):
+    """other vocabularies for the same data: a strict subset, the subset in another order, the vocabulary reversed,
+    one class replaced by a sibling tag (same value, same label or name, another term)"""
+    V = list(x["vocab"])
+    out = []
+    if len(V) >= 2:
+        V2 = rng.sample(V, rng.randint(1, len(V) - 1))
+        out.append(V2)
+        out.append(V2[::-1] if len(V2) > 1 else [V[-1]])
+        out.append(V[::-1])
+        out.append(V[1:] + V[:1])
+    i = rng.randrange(len(V))
+    sib = _siblings(x, V[i])
+    if sib:
+        W = list(V)
+        W[i] = rng.choice(sib)
+        out.append(W)
+    pool = TP.descriptors(x)
+    return [TP.dedupe_ids(pool, v) for v in out]
+
+
+def _edit_tags(rng, x):
+    """the same clips and sound events with some tags changed: a tag dropped, replaced by a sibling / another pool tag,
+    the true tags reordered, a true tag put in front, a score halved (sums only shrink)"""
+    y = copy.deepcopy(x)
+    lists = []
+    for side in ("predictions", "annotations"):
+        for c in y[side]:
+            lists.append((side, c, "tags"))
+            for e in c.get("events", []):
+                lists.append((side, e, "tags"))
+    rng.shuffle(lists)
+    for side, holder, k in lists[:rng.randint(1, max(1, len(lists) // 2))]:
+        ts = holder.get(k, [])
+        pred = side == "predictions"
+        r = rng.random()
+        if ts and r < 0.25:
+            ts.pop(rng.randrange(len(ts)))
+        elif ts and r < 0.6:
+            i = rng.randrange(len(ts))
+            t = ts[i][0] if pred else ts[i]
+            sib = _siblings(y, t) or POSITIONS
+            nt = rng.choice(sib)
+            ts[i] = [nt, ts[i][1]] if pred else nt
+        elif ts and r < 0.75:
+            if pred:
+                i = rng.randrange(len(ts))
+                ts[i] = [ts[i][0], rat(frac(ts[i][1]) / 2)]
+            else:
+                ts.reverse()
+        elif not pred:
+            ts.insert(0, rng.choice(y["vocab"] if rng.random() < 0.7 else POSITIONS))
+        elif not ts:
+            ts.append([rng.choice(y["vocab"]), "1/4"])
+        holder[k] = ts
+    return y
+
+
+_CLIP_TASKS = ["clip_classification", "clip_multilabel_classification"]
+
+
+def _ok_step(inp):
+    return in_scope(inp) and not _known(inp)
+
+
+def gen_histories(rng, n):
+    """explicit histories (every step judged by the model on the content the objects carry at that step):
+    V: the same data under V1, V2 < V1, V2 in another order, V1 again (fresh objects or the very same ones);
+    T: tasks alternating over the same live objects;  E: objects reused after their tags were edited (assignment,
+    in place, model_copy shallow / deep), then the first content again;  M: all of it mixed"""
+    out = []
+    tries = 0
+    while len(out) < n and tries < 20 * n:
+        tries += 1
+        kind = ("V", "T", "E", "M")[len(out) % 4]
+        events = rng.random() < 0.5
+        tasks = ["sound_event_classification", "sound_event_detection"] if events else list(_CLIP_TASKS)
+        x = gen_rich(rng, events)
+        x["task"] = rng.choice(tasks)
+        seq = []
+
+        def step(inp, reuse=None, poison=False):
+            st = {"inp": inp}
+            if reuse:
+                st["reuse"] = reuse
+            if poison:
+                st["poison"] = True
+            seq.append(st)
+        if kind == "V":
+            vs = _vocab_variants(rng, x)
+            if not vs:
+                continue
+            reuse = rng.choice([None, "same", "same"])
+            step(x)
+            v2 = vs[0]
+            step(_with(x, vocab=v2), reuse)
+            step(_with(x, vocab=rng.choice(vs[1:]) if len(vs) > 1 else v2), reuse)
+            step(_with(x, vocab=list(x["vocab"])), reuse)
+            if rng.random() < 0.5:
+                step(_with(x, vocab=rng.choice(vs)), reuse)
+        elif kind == "T":
+            ts = rng.sample(tasks, 2)
+            for k in range(rng.choice([3, 4])):
+                step(_with(x, task=ts[k % 2]), "same" if k else None, poison=rng.random() < 0.3)
+        elif kind == "E":
+            y = _edit_tags(rng, x)
+            step(x, poison=rng.random() < 0.3)
+            step(y, rng.choice(REUSE))
+            step(_with(x), rng.choice(REUSE))
+            if rng.random() < 0.5:
+                step(_with(y, vocab=rng.choice(_vocab_variants(rng, y) or [y["vocab"]])), rng.choice(REUSE + ["same"]))
+        else:
+            cur = x
+            step(cur, poison=rng.random() < 0.3)
+            for _ in range(rng.randint(2, 4)):
+                r = rng.random()
+                if r < 0.35:
+                    vs = _vocab_variants(rng, cur)
+                    cur = _with(cur, vocab=rng.choice(vs)) if vs else cur
+                    step(cur, rng.choice([None, "same"]), poison=rng.random() < 0.2)
+                elif r < 0.6:
+                    cur = _with(cur, task=rng.choice(tasks))
+                    step(cur, rng.choice([None, "same"]))
+                elif r < 0.85:
+                    cur = _edit_tags(rng, cur)
+                    step(cur, rng.choice(REUSE))
+                else:
+                    step(_with(x), rng.choice([None] + REUSE))
+                    cur = x
+        if all(_ok_step(st["inp"]) and st["inp"]["vocab"] for st in seq):
+            out.append({"seq": seq, "kind": kind})
+    return out
 
 
 # ---------------------------------------------------------------- known findings
@@ -676,8 +1233,14 @@ def _f_no_labelled_truth(f, m):
             and f.impl.get("raise") == "invalid" and in_scope(f.inp) and all_unlabelled(f.inp))
 
 
+def _f_clip_task_with_sound_events(f, m):
+    return (f.op in ("clip_classification", "clip_multilabel_classification") and f.kind == "property"
+            and isinstance(f.impl, dict) and f.impl.get("raise") == "invalid" and in_scope(f.inp) and carries_events(f.inp))
+
+
 FINDING_MATCHERS = {"single_tag_multilabel": _f_single_tag_multilabel,
-                    "detection_no_labelled_truth": _f_no_labelled_truth}
+                    "detection_no_labelled_truth": _f_no_labelled_truth,
+                    "clip_task_with_sound_events": _f_clip_task_with_sound_events}
 
 
 # ---------------------------------------------------------------- run
@@ -693,49 +1256,159 @@ def _symbolic_ties_quiet(ctx):
         _symbolic_ties(ctx)
 
 
+def _tag_tallies(ctx, inp):
+    t = inp["task"]
+    ctx.tally(f"{t}:vocab={len(inp['vocab'])}")
+    if inp.get("opts"):
+        for k, v in inp["opts"].items():
+            ctx.tally(f"opts:{k}={v}")
+    if inp.get("tagpool") is None:
+        ctx.tally("tags:pool=legacy")
+        return
+    ctx.tally("tags:pool=adversarial")
+    pool = [TP.content(d) for d in inp["tagpool"]]
+    lv = lambda t: (t["term"]["label"], t["value"])  # noqa: E731
+    nv = lambda t: (t["term"]["name"], t["value"])  # noqa: E731
+    voc = [pool[t] for t in inp["vocab"]]
+    vkeys = {jkey(t) for t in voc}
+    if len({lv(t) for t in voc}) < len(voc):
+        ctx.tally("tags:vocabulary-classes-share-label-and-value")
+    if len({nv(t) for t in voc}) < len(voc):
+        ctx.tally("tags:vocabulary-classes-share-name-and-value")
+    if len({t["value"] for t in voc}) < len(voc):
+        ctx.tally("tags:vocabulary-classes-share-value")
+    used = []
+    for side in ("annotations", "predictions"):
+        for c in inp.get(side, []):
+            for holder in [c] + list(c.get("events", [])):
+                ids = [x[0] if isinstance(x, list) else x for x in holder.get("tags", [])]
+                used += [pool[i] for i in ids]
+                if side == "predictions" and len({jkey(pool[i]) for i in ids}) < len(ids):
+                    ctx.tally("tags:duplicate-predicted-tag")
+    if any(jkey(t) not in vkeys and (lv(t) in {lv(v) for v in voc} or nv(t) in {nv(v) for v in voc}) for t in used):
+        ctx.tally("tags:near-miss-outside-vocabulary")
+
+
+def _row_tallies(ctx, inp):
+    """exact ties of a single-label item: best class score = left-over probability; two classes share the best score"""
+    if inp["task"] not in SINGLE:
+        return
+    for c in inp["predictions"]:
+        for holder in ([c] if inp["task"] == "clip_classification" else c.get("events", [])):
+            sc = [frac(s) for _, s in holder.get("tags", [])]
+            if sc and max(sc) > 0:
+                if max(sc) == 1 - sum(sc):
+                    ctx.tally("ties:best-class=none")
+                if sc.count(max(sc)) >= 2:
+                    ctx.tally("ties:two-best-classes")
+                if max(sc) == 1:
+                    ctx.tally("scores:exactly-1")
+            if any(s == 0 for s in sc):
+                ctx.tally("scores:explicit-0")
+
+
+def _shape_tallies(ctx, inp):
+    """clips on one side only, evaluated clips without any item, sound events without geometry"""
+    pc = [c["clip"] for c in inp["predictions"]]
+    ac = [c["clip"] for c in inp["annotations"]]
+    if set(pc) - set(ac):
+        ctx.tally("shape:clip-only-predicted")
+    if set(ac) - set(pc):
+        ctx.tally("shape:clip-only-annotated")
+    ann = {c["clip"]: c for c in inp["annotations"]}
+    for c in inp["predictions"]:
+        a = ann.get(c["clip"])
+        if a is None:
+            continue
+        if inp["task"] in ("clip_classification", "clip_multilabel_classification"):
+            if not c.get("tags") and not a.get("tags"):
+                ctx.tally("shape:evaluated-clip-without-any-tag")
+        else:
+            if not c.get("events") and not a.get("events"):
+                ctx.tally("shape:evaluated-clip-without-sound-events")
+            if any(e["geom"] is None for e in c.get("events", []) + a.get("events", [])):
+                ctx.tally("shape:sound-event-without-geometry")
+
+
 def _stage_task(ctx, t, n):
     cases = [gen_task(ctx.rng, t) for _ in range(n)]
+    # the top-3 boundary: vocabularies of exactly 1, 2, 3, 4 tags
+    for size in (1, 2, 3, 4):
+        cases += [gen_task(ctx.rng, t, size=size) for _ in range(max(4, n // 25))]
     for c in cases:
-        ctx.tally(f"{t}:vocab={len(c['vocab'])}")
+        _tag_tallies(ctx, c)
+        _row_tallies(ctx, c)
+        _shape_tallies(ctx, c)
     ctx.run_cases(OPS[t], cases)
 
 
 def _stage_exhaustive(ctx):
-    # small-scope exhaustive: one clip / one event, every (true tag, predicted tag) placement over a 2-tag vocabulary
-    ex = list(_exhaustive_small())
+    # small-scope exhaustive: one clip / one event, every (true tag, predicted tag) placement over a 2-tag vocabulary,
+    # once over the legacy tags and once over two classes that differ only in the name of the term (+ a near miss)
+    ex = list(_exhaustive_small()) + list(_exhaustive_small(_NEAR_POOL))
     for t in G.TASKS:
         ctx.run_cases(OPS[t], [c for c in ex if c["task"] == t])
     ctx.exhaustive["one item, vocabulary [0,1]"] = ("true tags in {[], [0], [1], [2], [1,0]} x predicted in "
-                                                    "{[], 0:1/2, 1:1/2, 0:1/2+1:1/2, 0:1/4+1:1/2, 2:1/2} for each task")
+                                                    "{[], 0:1/2, 1:1/2, 0:1/2+1:1/2, 0:1/4+1:1/2, 2:1/2} for each task; "
+                                                    "over the legacy tags and over {gbif:taxon=Turdus, ebird:taxon=Turdus} "
+                                                    "with a near miss (other uri) as tag 2")
 
 
 def _stage_metrics(ctx, n):
-    ctx.run_cases(OPS["metric"], [_gen_metric(ctx.rng) for _ in range(n)])
+    cases = [_gen_metric(ctx.rng) for _ in range(n)]
+    for c in cases:
+        if c["C"] > 16:
+            ctx.tally("metric:more-than-16-classes")
+        if len(c.get("items", [])) > 1024:
+            ctx.tally("metric:more-than-1024-items")
+        h = c.get("how")
+        if h:
+            ctx.tally(f"metric:scores={h['dt']}/{h['order']}")
+            ctx.tally(f"metric:truths={h['yt']}")
+    ctx.run_cases(OPS["metric"], cases)
+
+
+def _stage_histories(ctx, n):
+    hs = gen_histories(ctx.rng, n)
+    for h in hs:
+        ctx.tally("history:kind=" + h["kind"])
+        for st in h["seq"]:
+            ctx.tally("history:step=" + (st.get("reuse") or "fresh") + ("+poison" if st.get("poison") else ""))
+            ctx.tally("history:task=" + st["inp"]["task"])
+    ctx.run_cases(OPS["task_history"], hs)
 
 
 def run(ctx):
     ctx.stage("tables", _stage_tables, ctx)
     ctx.stage("corpus", ctx.run_corpus, OPS)
-    n = ctx.budget(250, 2500)
+    n = ctx.budget(220, 2500)
     for t in G.TASKS:
         ctx.stage("task:" + t, _stage_task, ctx, t, n)
     ctx.stage("exhaustive", _stage_exhaustive, ctx)
-    ctx.stage("metric functions", _stage_metrics, ctx, ctx.budget(5000, 60000))
+    ctx.stage("histories", _stage_histories, ctx, ctx.budget(160, 1600))
+    ctx.stage("metric functions", _stage_metrics, ctx, ctx.budget(4500, 60000))
 
 
-def _exhaustive_small():
+_NEAR_POOL = [{"term": TP.T_GBIF, "value": "Turdus"}, {"term": TP.T_EBIRD, "value": "Turdus"},
+              {"term": TP.T_URI, "value": "Turdus"}]
+
+
+def _exhaustive_small(tagpool=None):
     truths = [[], [0], [1], [2], [1, 0]]
     preds = [[], [[0, "1/2"]], [[1, "1/2"]], [[0, "1/2"], [1, "1/2"]], [[0, "1/4"], [1, "1/2"]], [[2, "1/2"]]]
     for t in G.TASKS:
         for tr in truths:
             for pr in preds:
                 if t in ("clip_classification", "clip_multilabel_classification"):
-                    yield {"task": t, "vocab": [0, 1], "predictions": [{"clip": 0, "tags": pr}],
-                           "annotations": [{"clip": 0, "tags": tr}]}
+                    case = {"task": t, "vocab": [0, 1], "predictions": [{"clip": 0, "tags": pr}],
+                            "annotations": [{"clip": 0, "tags": tr}]}
                 else:
-                    yield {"task": t, "vocab": [0, 1],
-                           "predictions": [{"clip": 0, "events": [{"id": 0, "geom": _BOX, "tags": pr}]}],
-                           "annotations": [{"clip": 0, "events": [{"id": 0, "geom": _BOX, "tags": tr}]}]}
+                    case = {"task": t, "vocab": [0, 1],
+                            "predictions": [{"clip": 0, "events": [{"id": 0, "geom": _BOX, "tags": pr}]}],
+                            "annotations": [{"clip": 0, "events": [{"id": 0, "geom": _BOX, "tags": tr}]}]}
+                if tagpool is not None:
+                    case["tagpool"] = tagpool
+                yield case
 
 
 def search(ctx, failures):
@@ -746,3 +1419,4 @@ def search(ctx, failures):
     for t in tasks:
         ctx.run_cases(OPS[t], [gen_task(ctx.rng, t) for _ in range(150)])
     ctx.run_cases(OPS["metric"], [_gen_metric(ctx.rng) for _ in range(2000)])
+    ctx.run_cases(OPS["task_history"], gen_histories(ctx.rng, 60))
